@@ -11,6 +11,7 @@ import (
 	"encoding/hex"
 	"fmt"
 	"math/rand"
+	"sync"
 
 	"verif/engine"
 	"verif/ref/rcrypto"
@@ -53,6 +54,93 @@ func refWrap(et int32, key []byte, usage uint32, flags byte, rrc uint16, seq uin
 	binary.BigEndian.PutUint16(hdr[4:], uint16(p.CksumLen))
 	binary.BigEndian.PutUint16(hdr[6:], rrc)
 	return append(append(hdr, payload...), ck...)
+}
+
+// RaceBody is run by the -race build: goroutines build and verify Wrap and MIC tokens with different flags, sequence
+// numbers and payloads at the same time; every checksum must be the reference's (state shared between calls shows as a
+// wrong checksum or as a data race).
+func RaceBody(reps int, seed int64) {
+	failed := map[string]string{}
+	var mu sync.Mutex
+	fail := func(k, v string) { mu.Lock(); failed[k] = v; mu.Unlock() }
+	runs := 0
+	for rep := 0; rep < reps; rep++ {
+		var wg sync.WaitGroup
+		for gi := 0; gi < 8; gi++ {
+			wg.Add(1)
+			go func(gi int) {
+				defer wg.Done()
+				defer func() {
+					if p := recover(); p != nil {
+						fail("concurrent:panic", fmt.Sprint(p))
+					}
+				}()
+				et := rcrypto.Etypes[gi%len(rcrypto.Etypes)]
+				p, _ := rcrypto.Get(et)
+				key := keyFor(et, seed)
+				gk := types.EncryptionKey{KeyType: et, KeyValue: key}
+				for i := 0; i < 20; i++ {
+					flags := byte((gi + i) % 8)
+					seq := uint64(gi)<<32 | uint64(i*7919+rep)
+					payload := bytes.Repeat([]byte{byte(gi*16 + i)}, 5+gi*3+i%4)
+					u := uint32(22 + (gi+i)%4)
+					wt := gssapi.WrapToken{Flags: flags, EC: uint16(p.CksumLen), SndSeqNum: seq, Payload: append([]byte{}, payload...)}
+					if err := wt.SetCheckSum(gk, u); err != nil {
+						fail(fmt.Sprintf("concurrent:Wrap:et%d:build-error", et), err.Error())
+						continue
+					}
+					want := refWrap(et, key, u, flags, 0, seq, payload)
+					if !bytes.Equal(wt.CheckSum, want[16+len(payload):]) {
+						fail(fmt.Sprintf("concurrent:Wrap:et%d:differs-from-rfc", et), fmt.Sprintf("flags %d seq %d", flags, seq))
+					}
+					var back gssapi.WrapToken
+					if err := back.Unmarshal(want, flags&1 != 0); err == nil {
+						if ok, _ := back.Verify(gk, u); !ok {
+							fail(fmt.Sprintf("concurrent:Wrap:et%d:rejects-genuine", et), fmt.Sprintf("flags %d seq %d", flags, seq))
+						}
+					}
+					mt := gssapi.MICToken{Flags: flags, SndSeqNum: seq, Payload: append([]byte{}, payload...)}
+					if err := mt.SetChecksum(gk, u); err != nil {
+						fail(fmt.Sprintf("concurrent:MIC:et%d:build-error", et), err.Error())
+						continue
+					}
+					mw := refMIC(et, key, u, flags, seq, payload)
+					if !bytes.Equal(mt.Checksum, mw[16:]) {
+						fail(fmt.Sprintf("concurrent:MIC:et%d:differs-from-rfc", et), fmt.Sprintf("flags %d seq %d", flags, seq))
+					}
+				}
+			}(gi)
+		}
+		engine.WaitOrBlocked(&wg, "gss tokens", runs)
+		runs++
+	}
+	for k, v := range failed {
+		fmt.Printf("RACE-INVARIANT %s\t%s\n", k, v)
+	}
+	fmt.Printf("RACE-RUNS %d\n", runs)
+}
+
+func racePass(c *engine.Ctx) {
+	reps := 15
+	if c.Thorough() {
+		reps = 150
+	}
+	reports, runs, err := engine.RunRace("C17RACE", fmt.Sprint(reps), fmt.Sprint(c.Seed))
+	if err != nil {
+		engine.Fatal("%v", err)
+	}
+	c.Cov["race_pass_runs"] = runs
+	c.Cov["race_reports"] = len(reports)
+	for _, r := range reports {
+		c.Violate("race", "race:"+r.Key, map[string]interface{}{"report": r.Text}, map[string]interface{}{"cmd": "vcheck-race C17RACE"})
+	}
+	for _, iv := range engine.RaceInvariant {
+		d := ""
+		if len(iv) > 1 {
+			d = iv[1]
+		}
+		c.Violate("race", "free-running:"+iv[0], map[string]interface{}{"what": d}, map[string]interface{}{"cmd": "vcheck-race C17RACE"})
+	}
 }
 
 func keyFor(et int32, seed int64) []byte {
@@ -238,7 +326,8 @@ func Run(c *engine.Ctx) {
 	c.Add("transitions", evals)
 	c.Add("traces_validated_against_impl", evals)
 	c.Sample(tokCase{Kind: "Wrap", Etype: 18, Len: 17, Flags: 5, Seq: 1 << 32, Usage: 22, Mut: "every bit flip, every truncation, every field changed after SetCheckSum"})
-	c.Cov["rule"] = "etype(6) x payload length 0..300 x flags 0..7 x seq {0,1,2^32,2^64-1} x usage {22,23,24,25} x {MIC, Wrap}: bytes equal the RFC construction, decode round trip, other direction rejected; for lengths {0,1,16,17,300}: every single-bit flip and every truncation of the marshalled token, every field bit changed after the checksum was set, other key, other usage. distinct = cells that matched and (etype, kind, mutation class) rejections"
+	racePass(c)
+	c.Cov["rule"] = "free-running -race pass: 8 goroutines building and verifying Wrap and MIC tokens with different flags / sequence numbers / payloads at once, every checksum compared with the reference; etype(6) x payload length 0..300 x flags 0..7 x seq {0,1,2^32,2^64-1} x usage {22,23,24,25} x {MIC, Wrap}: bytes equal the RFC construction, decode round trip, other direction rejected; for lengths {0,1,16,17,300}: every single-bit flip and every truncation of the marshalled token, every field bit changed after the checksum was set, other key, other usage. distinct = cells that matched and (etype, kind, mutation class) rejections"
 }
 
 func diffRegion(a, b []byte, hdr int) string {
